@@ -14,6 +14,8 @@ From GE Require Import Model.Taproot.
 From GE Require Import Model.SigValidate.
 From GE Require Import Model.Roles.
 From GE Require Import Model.Unblind.
+From GE Require Import Model.Blech32 Model.AddrCodecs Model.Address.
+From GE Require Import Model.Issuance.
 Extraction Language OCaml.
 Extraction "model.ml"
   Byte.of_N Byte.to_N N.of_nat N.to_nat Z.of_N
@@ -36,7 +38,17 @@ Extraction "model.ml"
   assemble_c cb_root_c parse_cb parse_cb_c ser_cb to_cb tapleaf_kv parse_tapleaf_kv_c verify_with_oracle
   tweak_priv tweak_scalar scalar_of_bytes scalar_to_bytes x_on_curve tnode_hash leaf_hash
   vs_validate_input vs_validate_all vs_disasm
-  R11.init R11.step R11.rt R11.locktime
+  R11.init R11.step R11.rt R11.rt_class R11.locktime
   ub_fit is_conf_out calc_asset_hash calc_token_hash o_nonce_hash o_asset_commitment o_value_commitment
   o_range_proof o_verify_range_proof o_blind_output o_blind_issuance_amount o_unblind_with_key
-  o_unblind_with_nonce o_unblind_issuance.
+  o_unblind_with_nonce o_unblind_issuance o_last_value_range_proof
+  B32.decode B32.decode_generic B32.encode B32.convert_bits B32.to_upper B32.BLECH32 B32.BLECH32M
+  compute_entropy compute_asset compute_token new_from_input new_tx_issuance contract_json
+  v0_add_issuance v0_add_reissuance v2_add_in_issuance v2_add_in_reissuance
+  get_issuance_asset_hash get_issuance_keys_hash unsigned_issuance extract_issuance unsigned_output expected_issuance
+  XC.check_encode XC.check_decode XC.bech_decode XC.bech_encode
+  Addr.liquid Addr.regtest Addr.testnet Addr.n_id Addr.n_pkh Addr.n_sh Addr.n_conf Addr.n_bech32 Addr.n_blech32
+  Addr.from_base58 Addr.to_base58 Addr.from_base58_conf Addr.to_base58_conf Addr.from_bech32 Addr.to_bech32
+  Addr.from_blech32 Addr.to_blech32 Addr.network_for_address Addr.decode_type Addr.is_confidential
+  Addr.to_output_script Addr.from_confidential Addr.to_confidential Addr.pay_address
+  Addr.script_p2pkh Addr.script_p2sh Addr.script_segwit.
